@@ -60,6 +60,9 @@ structure SMethod where
   inplace : List String
   /-- the expression returned (`""`: no `return` with a value; `"<several>"`: more than one) -/
   ret : String
+  /-- an entry point: the name does not start with `_`, or is `__init__` (private helpers are accounted for in the
+      `writes` of the methods that call them) -/
+  pub : Bool
 deriving DecidableEq, Repr
 
 structure SClass where
@@ -149,9 +152,10 @@ def resolveStack : Nat → List String → String → Option String
 
 def resolve (c m : String) : Option String := t.resolveStack (2 * t.classes.length + 2) [c] m
 
-/-- the methods (own or inherited from walked classes) of `c` that write an attribute of `self` -/
+/-- the entry points (public methods and `__init__`, own or inherited from walked classes) of `c` that write an attribute
+    of `self`, directly or through a private helper -/
 def writers (c : String) : List String :=
-  ((t.methods.filter (fun k => !k.writes.isEmpty && t.resolve c k.name == some k.cls)).map (·.name)).eraseDups
+  ((t.methods.filter (fun k => k.pub && !k.writes.isEmpty && t.resolve c k.name == some k.cls)).map (·.name)).eraseDups
 
 end Tbl
 
